@@ -121,8 +121,19 @@ impl Relation for ZkirRelation {
             })
         };
 
+        // Jubjub values can also enter a program as constants.
+        let has_jubjub_constant = self.program.instructions.iter().any(|instr| {
+            instr.inputs.iter().any(|name| {
+                matches!(
+                    IrValue::try_from(name.as_str()),
+                    Ok(IrValue::JubjubPoint(_)) | Ok(IrValue::JubjubScalar(_))
+                )
+            })
+        });
+
         ZkStdLibArch {
-            jubjub: involves_types(&[IrType::JubjubPoint, IrType::JubjubScalar]),
+            jubjub: involves_types(&[IrType::JubjubPoint, IrType::JubjubScalar])
+                || has_jubjub_constant,
             poseidon: operations.iter().any(|op| matches!(op, Poseidon)),
             sha2_256: operations.iter().any(|op| matches!(op, Sha256)),
             sha2_512: operations.iter().any(|op| matches!(op, Sha512)),
